@@ -34,14 +34,14 @@ class CleanupEntry():
             raise TypeError(f'{thread_player} is not an EventStreamPlayer')
         self._cleanup = thread_player.cleanup
         self._cleanup.add(self)
-        self._events = set()
+        self._events = dict()  # Ordered set.
         self._functions = dict()
 
     def add_event(self, event):
-        self._events.add(event)
+        self._events[event] = None
 
     def remove_event(self, event):
-        self._events.discard(event)
+        self._events.pop(event, None)
 
     def add_function(self, fn, *args):
         self._functions[fn] = args
@@ -60,29 +60,29 @@ class CleanupEntry():
             self._cleanup = None
 
     def clear(self):
-        self._events = set()
+        self._events = dict()
         self._functions = dict()
 
 
 class EventStreamCleanup():
     def __init__(self):
-        self._entries = set()
+        self._entries = dict()  # Ordered set.
         sac.CmdPeriod.add(self.__on_cmd_period)
 
     def add(self, entry):
         if isinstance(entry, CleanupEntry):
-            self._entries.add(entry)
+            self._entries[entry] = None
         else:
             raise TypeError('entry is not a CleanupEntry')
 
     def remove(self, entry):
-        self._entries.discard(entry)
+        self._entries.pop(entry, None)
 
     def clear(self):
-        self._entries = set()
+        self._entries = dict()
 
     def run(self):
-        for entry in self._entries.copy():
+        for entry in list(self._entries):
             entry.run()
         self.clear()
         sac.CmdPeriod.remove(self.__on_cmd_period)
